@@ -156,6 +156,8 @@ func (h *Engine) Shutdown() error {
 }
 
 // matchesPath checks whether the request URI path hierarchically matches the given path.
+// Callers must pass the parsed path (http.Request.URL.Path), not http.Request.RequestURI: the latter also carries the query
+// and, for absolute-form request targets ("GET http://host/internal/x HTTP/1.1"), the scheme and authority.
 // Examples:
 // / matches /
 // /foo matches /
@@ -201,7 +203,7 @@ func (h Engine) applyRateLimiterMiddleware(echoServer core.EchoRouter, serverCon
 func (h Engine) applyLoggerMiddleware(echoServer core.EchoRouter, excludePaths []string, logLevel LogLevel) {
 	skipper := func(c echo.Context) bool {
 		for _, excludePath := range excludePaths {
-			if matchesPath(c.Request().RequestURI, excludePath) {
+			if matchesPath(c.Request().URL.Path, excludePath) {
 				return true
 			}
 		}
@@ -221,7 +223,7 @@ func (h Engine) applyAuthMiddleware(echoServer core.EchoRouter, path string, con
 	address := h.server.getAddressForPath(path)
 
 	skipper := func(c echo.Context) bool {
-		return !matchesPath(c.Request().RequestURI, path)
+		return !matchesPath(c.Request().URL.Path, path)
 	}
 
 	// Auth
